@@ -48,7 +48,7 @@ def cases(tier):
             out.append({"name": f"{s['name']}/h1/first={OPS[first]}", "skel": s, "hl": 1, "first": first, "N": 1 if tier == "quick" else 2})
     if tier == "thorough":
         # two operations between the generations (second one from the state-changing candidates), N = 1
-        for s in sk[:4]:
+        for s in sk[:3]:
             for first in range(len(OPS)):
                 out.append({"name": f"{s['name']}/h2/first={OPS[first]}", "skel": s, "hl": 2, "first": first, "N": 1, "second": SECOND})
     return out
